@@ -7,6 +7,8 @@ import (
 	"errors"
 	"reflect"
 	"sync"
+
+	"gorm.io/gorm/utils/simhook"
 )
 
 type Stmt struct {
@@ -47,10 +49,15 @@ func (db *PreparedStmtDB) Close() {
 	defer db.Mux.Unlock()
 
 	for _, stmt := range db.Stmts {
+		simhook.Spawn(stmt)
 		go func(s *Stmt) {
+			simhook.GoStart(s)
+			defer simhook.GoEnd()
 			// make sure the stmt must finish preparation first
+			simhook.Wait(s.prepared, "closer:prepared")
 			<-s.prepared
 			if s.Stmt != nil {
+				simhook.Yield("closer:close")
 				_ = s.Close()
 			}
 		}(stmt)
@@ -64,10 +71,15 @@ func (sdb *PreparedStmtDB) Reset() {
 	defer sdb.Mux.Unlock()
 
 	for _, stmt := range sdb.Stmts {
+		simhook.Spawn(stmt)
 		go func(s *Stmt) {
+			simhook.GoStart(s)
+			defer simhook.GoEnd()
 			// make sure the stmt must finish preparation first
+			simhook.Wait(s.prepared, "closer:prepared")
 			<-s.prepared
 			if s.Stmt != nil {
+				simhook.Yield("closer:close")
 				_ = s.Close()
 			}
 		}(stmt)
@@ -80,6 +92,7 @@ func (db *PreparedStmtDB) prepare(ctx context.Context, conn ConnPool, isTransact
 	if stmt, ok := db.Stmts[query]; ok && (!stmt.Transaction || isTransaction) {
 		db.Mux.RUnlock()
 		// wait for other goroutines prepared
+		simhook.Wait(stmt.prepared, "prepare:hit")
 		<-stmt.prepared
 		if stmt.prepareErr != nil {
 			return Stmt{}, stmt.prepareErr
@@ -88,12 +101,14 @@ func (db *PreparedStmtDB) prepare(ctx context.Context, conn ConnPool, isTransact
 		return *stmt, nil
 	}
 	db.Mux.RUnlock()
+	simhook.Yield("prepare:miss")
 
 	db.Mux.Lock()
 	// double check
 	if stmt, ok := db.Stmts[query]; ok && (!stmt.Transaction || isTransaction) {
 		db.Mux.Unlock()
 		// wait for other goroutines prepared
+		simhook.Wait(stmt.prepared, "prepare:double-check-hit")
 		<-stmt.prepared
 		if stmt.prepareErr != nil {
 			return Stmt{}, stmt.prepareErr
@@ -111,6 +126,7 @@ func (db *PreparedStmtDB) prepare(ctx context.Context, conn ConnPool, isTransact
 	cacheStmt := Stmt{Transaction: isTransaction, prepared: make(chan struct{})}
 	db.Stmts[query] = &cacheStmt
 	db.Mux.Unlock()
+	simhook.Yield("prepare:published")
 
 	// prepare completed
 	defer close(cacheStmt.prepared)
@@ -123,12 +139,14 @@ func (db *PreparedStmtDB) prepare(ctx context.Context, conn ConnPool, isTransact
 	stmt, err := conn.PrepareContext(ctx, query)
 	if err != nil {
 		cacheStmt.prepareErr = err
+		simhook.Yield("prepare:failed")
 		db.Mux.Lock()
 		delete(db.Stmts, query)
 		db.Mux.Unlock()
 		return Stmt{}, err
 	}
 
+	simhook.Yield("prepare:done")
 	db.Mux.Lock()
 	cacheStmt.Stmt = stmt
 	db.Mux.Unlock()
@@ -160,8 +178,10 @@ func (db *PreparedStmtDB) BeginTx(ctx context.Context, opt *sql.TxOptions) (Conn
 func (db *PreparedStmtDB) ExecContext(ctx context.Context, query string, args ...interface{}) (result sql.Result, err error) {
 	stmt, err := db.prepare(ctx, db.ConnPool, false, query)
 	if err == nil {
+		simhook.Yield("exec:prepared")
 		result, err = stmt.ExecContext(ctx, args...)
 		if errors.Is(err, driver.ErrBadConn) {
+			simhook.Yield("exec:badconn")
 			db.Mux.Lock()
 			defer db.Mux.Unlock()
 			go stmt.Close()
@@ -174,8 +194,10 @@ func (db *PreparedStmtDB) ExecContext(ctx context.Context, query string, args ..
 func (db *PreparedStmtDB) QueryContext(ctx context.Context, query string, args ...interface{}) (rows *sql.Rows, err error) {
 	stmt, err := db.prepare(ctx, db.ConnPool, false, query)
 	if err == nil {
+		simhook.Yield("query:prepared")
 		rows, err = stmt.QueryContext(ctx, args...)
 		if errors.Is(err, driver.ErrBadConn) {
+			simhook.Yield("query:badconn")
 			db.Mux.Lock()
 			defer db.Mux.Unlock()
 
@@ -189,6 +211,7 @@ func (db *PreparedStmtDB) QueryContext(ctx context.Context, query string, args .
 func (db *PreparedStmtDB) QueryRowContext(ctx context.Context, query string, args ...interface{}) *sql.Row {
 	stmt, err := db.prepare(ctx, db.ConnPool, false, query)
 	if err == nil {
+		simhook.Yield("queryrow:prepared")
 		return stmt.QueryRowContext(ctx, args...)
 	}
 	return &sql.Row{}
@@ -228,8 +251,10 @@ func (tx *PreparedStmtTX) Rollback() error {
 func (tx *PreparedStmtTX) ExecContext(ctx context.Context, query string, args ...interface{}) (result sql.Result, err error) {
 	stmt, err := tx.PreparedStmtDB.prepare(ctx, tx.Tx, true, query)
 	if err == nil {
+		simhook.Yield("tx-exec:prepared")
 		result, err = tx.Tx.StmtContext(ctx, stmt.Stmt).ExecContext(ctx, args...)
 		if errors.Is(err, driver.ErrBadConn) {
+			simhook.Yield("tx-exec:badconn")
 			tx.PreparedStmtDB.Mux.Lock()
 			defer tx.PreparedStmtDB.Mux.Unlock()
 
@@ -243,8 +268,10 @@ func (tx *PreparedStmtTX) ExecContext(ctx context.Context, query string, args ..
 func (tx *PreparedStmtTX) QueryContext(ctx context.Context, query string, args ...interface{}) (rows *sql.Rows, err error) {
 	stmt, err := tx.PreparedStmtDB.prepare(ctx, tx.Tx, true, query)
 	if err == nil {
+		simhook.Yield("tx-query:prepared")
 		rows, err = tx.Tx.StmtContext(ctx, stmt.Stmt).QueryContext(ctx, args...)
 		if errors.Is(err, driver.ErrBadConn) {
+			simhook.Yield("tx-query:badconn")
 			tx.PreparedStmtDB.Mux.Lock()
 			defer tx.PreparedStmtDB.Mux.Unlock()
 
@@ -258,6 +285,7 @@ func (tx *PreparedStmtTX) QueryContext(ctx context.Context, query string, args .
 func (tx *PreparedStmtTX) QueryRowContext(ctx context.Context, query string, args ...interface{}) *sql.Row {
 	stmt, err := tx.PreparedStmtDB.prepare(ctx, tx.Tx, true, query)
 	if err == nil {
+		simhook.Yield("tx-queryrow:prepared")
 		return tx.Tx.StmtContext(ctx, stmt.Stmt).QueryRowContext(ctx, args...)
 	}
 	return &sql.Row{}
